@@ -208,6 +208,14 @@ func (e *batchEx) Exec(op string) string {
 			args = e.c.Signed(u, method, e.methodArgs(method, w[4], script)...)
 		}
 		id := simpeer.NewTxID()
+		listed := id
+		if strings.HasPrefix(sym, "U") {
+			// a transaction id in UPPER-case hex (accepted by the id check): its record is stored under
+			// that spelling, while a batch derives the key from the id's bytes, i.e. in lower case —
+			// such a record is never found, never executed, never consumed
+			id = "AB" + strings.ToUpper(id[2:])
+			listed = strings.ToLower(id)
+		}
 		before := e.c.L.Snapshot()
 		r := e.c.Invoke(wd.Client.Creator, id, method, args...)
 		after := e.c.L.Snapshot()
@@ -222,7 +230,10 @@ func (e *batchEx) Exec(op string) string {
 				changed++
 			}
 		}
-		e.ids[sym], e.syms[id] = id, sym
+		e.ids[sym], e.syms[id] = listed, sym
+		if listed != id {
+			e.syms[id] = "^" + sym
+		}
 		if r.OK() {
 			return fmt.Sprintf("ok keys=%d", changed)
 		}
@@ -233,6 +244,17 @@ func (e *batchEx) Exec(op string) string {
 			id, ok := e.ids[s]
 			if !ok {
 				id = hex.EncodeToString([]byte("unknown-" + s))
+				// unknown ids of unusual lengths: empty, one byte, three bytes, very long
+				switch s {
+				case "z0":
+					id = ""
+				case "z1":
+					id = "07"
+				case "z3":
+					id = "010203"
+				case "zL":
+					id = strings.Repeat("ab", 300)
+				}
 			}
 			ids = append(ids, id)
 		}
@@ -430,7 +452,7 @@ func genC04(c *Cfg, emit func([]string)) {
 					syms = append(syms, syms[c.Rng.Intn(len(syms))])
 				}
 				if c.Rng.Intn(4) == 0 {
-					syms = append(syms, "zz")
+					syms = append(syms, []string{"zz", "z0", "z1", "z3", "zL"}[c.Rng.Intn(5)])
 				}
 				c.Rng.Shuffle(len(syms), func(a, b int) { syms[a], syms[b] = syms[b], syms[a] })
 				h = append(h, strings.TrimSpace("batch "+strings.Join(syms, " ")))
@@ -476,6 +498,9 @@ func genC05(c *Cfg, emit func([]string)) {
 			if c.Rng.Intn(2) == 0 || len(known) == 0 {
 				n++
 				sym := fmt.Sprintf("t%d", n)
+				if c.Rng.Intn(8) == 0 {
+					sym = fmt.Sprintf("U%d", n) // submitted under an upper-case hex transaction id
+				}
 				method := []string{"script", "script", "script", "scriptNS", "nosuch"}[c.Rng.Intn(5)]
 				h = append(h, fmt.Sprintf("submit %s %s %s %s", sym, method, users[c.Rng.Intn(3)], randScript(c, users)), "ledger")
 				if method != "nosuch" {
@@ -487,7 +512,7 @@ func genC05(c *Cfg, emit func([]string)) {
 				for j := 0; j < k; j++ {
 					switch c.Rng.Intn(6) {
 					case 0:
-						syms = append(syms, "zz")
+						syms = append(syms, []string{"zz", "z0", "z1", "z3", "zL"}[c.Rng.Intn(5)])
 					case 1:
 						if len(executed) > 0 {
 							syms = append(syms, executed[c.Rng.Intn(len(executed))]) // already executed (ok or failed)
@@ -509,6 +534,6 @@ func genC05(c *Cfg, emit func([]string)) {
 		}
 		emit(h)
 	}
-	c.Rule = fmt.Sprintf("%d histories of 1..12 steps interleaving submissions (valid with/without sender, unknown function) and batches whose id lists are multisets of fresh, already executed (succeeded or failed), duplicated (x2/x3) and unknown ids; observed: ledger diff of each submission (number of changed keys), per-id reply, and the ledger incl. presence of every pending record after each step. non-trivial = contains a batch; distinct = sha256", nHist)
+	c.Rule = fmt.Sprintf("%d histories of 1..12 steps interleaving submissions (valid with/without sender, unknown function, some under upper-case hex transaction ids) and batches whose id lists are multisets of fresh, already executed (succeeded or failed), duplicated (x2/x3) and unknown ids (also empty, 1-, 3- and 300-byte ids); observed: ledger diff of each submission (number of changed keys), per-id reply, and the ledger incl. presence of every pending record after each step. non-trivial = contains a batch; distinct = sha256", nHist)
 	c.Extra = map[string]any{"histories": nHist}
 }
